@@ -717,6 +717,12 @@ func (d *urlValuesDecoder) DecodeObject(param string, sm *openapi3.Serialization
 		}
 	}
 
+	if len(val) != 0 {
+		// something of the parameter was decoded (by additionalProperties, when no declared
+		// property is there)
+		found = true
+	}
+
 	return val, found, nil
 }
 
